@@ -59,7 +59,7 @@ from pyccolo.extra_builtins import (
     make_guard_name,
 )
 from pyccolo.handler import HandlerSpec
-from pyccolo.import_hooks import patch_meta_path_non_context
+from pyccolo.import_hooks import TraceFinder, patch_meta_path_non_context
 from pyccolo.predicate import Predicate
 from pyccolo.syntax_augmentation import AugmentationSpec, make_syntax_augmenter
 from pyccolo.trace_events import AST_TO_EVENT_MAPPING, SYS_TRACE_EVENTS, TraceEvent
@@ -772,7 +772,10 @@ class _InternalBaseTracer(_InternalBaseTracerSuper, metaclass=MetaTracerStateMac
         setattr(builtins, EXEC_SAVED_THUNK, self.exec_saved_thunk)
         setattr(builtins, TRACE_LAMBDA, self.trace_lambda)
         if do_patch_meta_path is None:
-            do_patch_meta_path = self.should_patch_meta_path and len(_TRACER_STACK) == 0
+            # one finder serves the whole (live) stack; an outer tracer that opted out has not installed it
+            do_patch_meta_path = self.should_patch_meta_path and not any(
+                isinstance(finder, TraceFinder) for finder in sys.meta_path
+            )
         if should_push:
             _TRACER_STACK.append(self)  # type: ignore
         do_patch_sys_settrace = self.has_sys_trace_events and will_enable_tracing
